@@ -18,7 +18,7 @@ int __real_pthread_mutex_lock(pthread_mutex_t *);
 int __real_pthread_mutex_unlock(pthread_mutex_t *);
 int __real_pthread_mutex_trylock(pthread_mutex_t *);
 
-#define EVCAP (1u << 21)
+#define EVCAP (1u << 24)
 #define ARENA_BYTES ((size_t)64 << 20)
 
 enum { T_NEW, T_RUNNABLE, T_BLOCKED, T_DONE };
